@@ -343,6 +343,7 @@ func c18(p *model.Prog, r *report.Result) {
 	c18r6(p, r)
 	w5MetaErr(p, r, "C18.R7")
 	w5BuildMeta(p, r, "C18.R8")
+	w8GrowBeforeCopy(p, r, "C18.R9")
 }
 
 // isLenOf: v is len(<param>).
